@@ -144,6 +144,13 @@ func Gen(r *rand.Rand) Scenario {
 	sc.Slow = 1 + r.Intn(6)
 	sc.Chain = !isSubj && len(sc.PanicTd) == 0 && r.Intn(3) == 0
 	sc.JoinTd = !isSubj && sc.Kind != "obs-unsafe" && len(sc.PanicTd) == 0 && r.Intn(4) == 0
+	if sc.JoinTd {
+		// joining the workers from INSIDE a callback cannot work with any serialising subscriber (the worker to join is waiting for the
+		// lock the callback holds): such scenarios never unsubscribe from inside a callback
+		for o := range sc.InsideAt {
+			sc.InsideAt[o] = -1
+		}
+	}
 	if sc.Kind == "obs-safe" && len(sc.PanicTd) == 0 && r.Intn(5) == 0 {
 		// the subscribe function panics while its producers are already emitting: no teardown is ever returned
 		sc.SubPanic = true
